@@ -549,7 +549,18 @@ func (e *Env) evalIndex(n *ast.IndexExpr) Val {
 	return Val{}
 }
 
+// goTypeResolver resolves Go type names in ghost declarations (set per verification unit).
+var goTypeResolver func(string) types.Type
+
 func ghostSort(ty string) (Sort, types.Type) {
+	if goTypeResolver != nil && (strings.HasPrefix(ty, "*") || strings.Contains(ty, ".")) && !strings.HasPrefix(ty, "map[") && !strings.HasPrefix(ty, "seq[") {
+		if t := goTypeResolver(ty); t != nil {
+			l := Layout(t)
+			if len(l) >= 1 {
+				return l[0].S, t
+			}
+		}
+	}
 	switch ty {
 	case "[]byte":
 		return SInt, types.NewSlice(types.Typ[types.Uint8])
@@ -805,6 +816,10 @@ func (e *Env) evalCall(n *ast.CallExpr) Val {
 		return boolVal(Select(e.st.heapGet("Alloc", ArrSort(SInt, SBool)), arg(0).C[0]))
 	case "closed":
 		return boolVal(Select(e.st.heapGet("ChClosed", ArrSort(SInt, SBool)), arg(0).C[0]))
+	case "ifaceStr":
+		// ifaceStr(x): the string boxed in interface value x
+		tag := e.x.prog.typeTag(types.Typ[types.String])
+		return strVal(App(fmt.Sprintf("ipay_%d_0", tag), SStr, arg(0).T()))
 	case "asHeader":
 		// asHeader(ref): view a reference as an http.Header (map[string][]string)
 		v := arg(0)
